@@ -106,6 +106,12 @@ func main() {
 				ins = append(ins, wl.Op{Kind: "create", PC: "cur", SeedKind: "fresh", Remark: "never used"}, wl.Op{Kind: "unlock", PC: "cur"}, wl.Op{Kind: "export", PC: "cur", K: -1}, wl.Op{Kind: "delete", PC: "cur", K: -1},
 					wl.Op{Kind: "unlock", PC: "cur"}, wl.Op{Kind: "import", PC: "exp", NPC: "cur", X: -1}, wl.Op{Kind: "next", N: 2, K: -1}, wl.Op{Kind: "next", N: 1, Internal: true, K: -1}, wl.Op{Kind: "sign", N: 0})
 			}
+			if r.Chance(1, 3) {
+				// a keystore that has only ever issued change (internal-branch) keys goes out and comes back: those keys must
+				// sign again
+				ins = append(ins, wl.Op{Kind: "create", PC: "cur", SeedKind: "fresh", Remark: "internal only"}, wl.Op{Kind: "next", N: 2, Internal: true, K: -1}, wl.Op{Kind: "unlock", PC: "cur"},
+					wl.Op{Kind: "export", PC: "cur", K: -1}, wl.Op{Kind: "delete", PC: "cur", K: -1}, wl.Op{Kind: "import", PC: "exp", NPC: "cur", X: -1}, wl.Op{Kind: "unlock", PC: "cur"}, wl.Op{Kind: "sign", N: 0})
+			}
 			pos := 1 + r.Intn(len(ops)/2+1)
 			out := append([]wl.Op{}, ops[:pos]...)
 			out = append(out, ins...)
